@@ -465,13 +465,24 @@ class Interp:
                     return K(len(a0.v))
                 if isinstance(a0, R) and a0.kind in ("list", "dict") and "items" in a0.fields:
                     return K(len(a0.fields["items"]))
-            if fname in ("max", "min") and args and not kwargs:
+            if fname == "range" and 1 <= len(args) <= 3 and not kwargs and all(isinstance(a, K) and isinstance(a.v, int) and not isinstance(a.v, bool) for a in args):
+                try:
+                    rng = range(*[a.v for a in args])
+                except ValueError:
+                    st.pending = st.pending or "ValueError"
+                    return U("range() step zero")
+                if len(rng) <= 4096:
+                    return K(tuple(K(i) for i in rng))
+            if fname in ("max", "min") and args and (not kwargs or (set(kwargs) == {"default"} and len(args) == 1)):
                 cand = args
+                seq1 = None
                 if len(args) == 1:
                     seq1 = self.iterate(args[0], st)
                     cand = seq1 if seq1 is not None else []
                 if cand and all(isinstance(x, K) and isinstance(x.v, (int, float)) and not isinstance(x.v, bool) for x in cand):
                     return K((max if fname == "max" else min)(x.v for x in cand))
+                if len(args) == 1 and seq1 is not None and not seq1 and "default" in kwargs:
+                    return kwargs["default"]  # max(<empty>, default=d)
             if fname == "next" and 1 <= len(args) <= 2 and isinstance(e.args[0], ast.Call) and dotted(e.args[0].func) == "iter" and len(e.args[0].args) == 1:
                 seq = self.iterate(self.eval(e.args[0].args[0], st), st)
                 if seq is not None:
@@ -585,7 +596,7 @@ class Interp:
                 self.yield_handler(v, st)
                 return K(None)
             if st.pending is None:
-                st.effects.append(("yield", st.freeze(v)))
+                st.effects.append(("yield", st.freeze(v), v))  # [2]: the value itself (an object of the heap keeps its identity)
             return U("sent value")
         if isinstance(e, ast.YieldFrom):
             src = self.eval(e.value, st)
@@ -593,7 +604,7 @@ class Interp:
             if seq_y is not None and getattr(self, "yield_handler", None) is None:
                 # delegation to a sequence whose elements are known: one yield per element, in order
                 for el in seq_y:
-                    st.effects.append(("yield", st.freeze(el)))
+                    st.effects.append(("yield", st.freeze(el), el))
                 return K(None)
             st.effects.append(("yield-from", st.freeze(src)))
             return U("yield from")
@@ -647,6 +658,25 @@ class Interp:
                         return K(l.v * r.v)
                 except Exception:
                     pass
+            def _as_set(x: V) -> Optional[List[V]]:
+                if isinstance(x, Ref) and x.kind == "set" and isinstance(st.deref(x), list):
+                    return list(st.deref(x))
+                if isinstance(x, K) and isinstance(x.v, frozenset):
+                    return list(x.v)
+                return None
+            if isinstance(e.op, (ast.Sub, ast.BitOr, ast.BitAnd, ast.BitXor)) and (isinstance(l, Ref) or isinstance(r, Ref)):
+                # set algebra on sets of the scenario's heap: a new set (members in the order of the operands)
+                a_s, b_s = _as_set(l), _as_set(r)
+                if a_s is not None and b_s is not None:
+                    if isinstance(e.op, ast.Sub):
+                        res_m = [x for x in a_s if x not in b_s]
+                    elif isinstance(e.op, ast.BitAnd):
+                        res_m = [x for x in a_s if x in b_s]
+                    elif isinstance(e.op, ast.BitOr):
+                        res_m = a_s + [x for x in b_s if x not in a_s]
+                    else:
+                        res_m = [x for x in a_s if x not in b_s] + [x for x in b_s if x not in a_s]
+                    return st.alloc("set", res_m)
             if isinstance(e.op, ast.Add):
                 # list + list -> a new list
                 sl, sr = (self.iterate(x, st) if isinstance(x, (Ref,)) or (isinstance(x, R) and x.kind == "list") else None for x in (l, r))
